@@ -8,7 +8,7 @@
    being provable (harness/selftest_annotators.sh: 35 semantic changes rejected, 3 harmless rewrites accepted).
 
    THE TIES                                                         against                              hypotheses
-     IousTie.gen__compute_ious_eq     _compute_ious                 CandGraphTie.compute_ious_sorted     none
+     IousTie.gen__compute_ious_eq     _compute_ious                 AnnotatorsIous.compute_ious_sorted   none
         (with iou_of_frames, ious_find_spec: the entry for (u, v) IS Model/Edit.v's iou_of on the two frames, u, v <> 0)
      gen_EdgeAnnotator_update_eq      EdgeAnnotator.update          PyRt3.py_edge_update                 H1 H2 H3
         (= iou_update_edges / iou_of of Model/Edit.v on the added edge / on the edges incident to the node)
@@ -45,7 +45,7 @@
 From Coq Require Import ZArith List Bool Lia Arith Permutation.
 From FT Require Import Base.Dict Model.Edit Model.Toggle Model.PyRt Model.PyRt3 Model.PyRt4 Model.PyRt8
   Gen.Toggle_gen Gen.Annotators_gen Proofs.DictLemmas Proofs.EditInv Proofs.EditSeg Proofs.EditGraph Proofs.EditFresh Proofs.ToggleTie.
-From FT Require Model.NpRt Model.PyRt5 Model.CandGraph Proofs.CandGraphProofs Proofs.CandGraphTie.
+From FT Require Model.NpRt Model.PyRt5 Model.CandGraph Proofs.CandGraphProofs Proofs.AnnotatorsIous.
 Import ListNotations.
 Open Scope Z_scope.
 
@@ -54,47 +54,18 @@ Module AG := FT.Gen.Annotators_gen.
 (* ================================================================== *)
 (* 1. _compute_ious (annotators/_compute_ious.py)                      *)
 (* ================================================================== *)
-(* the list the function returns, in np.unique's order: the same model list as for the textually identical
-   function of candidate_graph/iou.py (Proofs/CandGraphTie.v: compute_ious_sorted; a Permutation of
-   Model/CandGraph.v's compute_ious).  The proof is the one of CandGraphTie.gen__compute_ious_eq, replayed on
-   the definition generated from the annotators' file. *)
+(* the list the function returns, in np.unique's order: [compute_ious_sorted], a Permutation of Model/CandGraph.v's
+   compute_ious.  Proved in Proofs/AnnotatorsIous.v about the definition generated from the ANNOTATORS' file (the lemmas are
+   copied from the candidate-graph tie, which this development does not depend on). *)
 Module IousTie.
-Import FT.Model.NpRt FT.Model.PyRt5 FT.Model.CandGraph FT.Proofs.CandGraphProofs FT.Proofs.CandGraphTie.
 Theorem gen__compute_ious_eq : forall f1 f2 : list Z,
-  AG.Ious.gen__compute_ious f1 f2 = Ok (compute_ious_sorted f1 f2).
-Proof.
-  intros f1 f2. unfold AG.Ious.gen__compute_ious, np_flatten. cbv zeta.
-  rewrite stacked_overlap. set (ov := overlap_pairs f1 f2).
-  unfold np_unique_cols_counts. cbv zeta. fold (unique_cols ov). set (U := unique_cols ov).
-  pose proof (label_sizes_get f1) as S1. pose proof (label_sizes_get f2) as S2.
-  destruct (np_unique_counts f1) as [v1 c1]. destruct (np_unique_counts f2) as [v2 c2].
-  unfold np_cols_shape1.
-  match goal with |- run (forM _ _ ?body ?k) = _ =>
-    rewrite (forM_fold' (fun idx acc => acc ++ [iou_entry f1 f2 ov (nth (Z.to_nat idx) U (0, 0))]) body k)
-  end.
-  - cbn [run]. f_equal. unfold compute_ious_sorted. fold ov. fold U.
-    rewrite (fold_snoc (fun idx => iou_entry f1 f2 ov (nth (Z.to_nat idx) U (0, 0)))). cbn [app].
-    apply (map_nth_range (iou_entry f1 f2 ov) (0, 0) U).
-  - intros idx acc Hidx. unfold np_col, np_item.
-    assert (Hin : In (nth (Z.to_nat idx) U (0, 0)) U).
-    { apply nth_In. unfold py_range in Hidx. apply in_map_iff in Hidx. destruct Hidx as (i & <- & Hi).
-      apply in_seq in Hi. rewrite !Nat2Z.id in *. lia. }
-    assert (Hc : nth (Z.to_nat idx) (map (fun x => Z.of_nat (length (filter (col_eqb x) ov))) U) 0
-                 = Z.of_nat (count_occ pair_dec ov (nth (Z.to_nat idx) U (0, 0)))).
-    { rewrite <- count_cols.
-      unfold py_range in Hidx. apply in_map_iff in Hidx. destruct Hidx as (i & <- & Hi). apply in_seq in Hi.
-      rewrite !Nat2Z.id in *. rewrite (nth_indep _ 0 ((fun x => Z.of_nat (length (filter (col_eqb x) ov))) (0, 0)))
-        by (rewrite map_length; lia).
-      exact (map_nth (fun x => Z.of_nat (length (filter (col_eqb x) ov))) U (0, 0) i). }
-    rewrite Hc. destruct (nth (Z.to_nat idx) U (0, 0)) as [a b] eqn:Epr.
-    apply (proj1 (unique_cols_In _ _)) in Hin. apply overlap_In_frames in Hin. destruct Hin as [Ha Hb].
-    rewrite (S1 a Ha), (S2 b Hb). cbn [bind]. reflexivity.
-Qed.
+  AG.Ious.gen__compute_ious f1 f2 = FT.Model.PyRt5.Ok (FT.Proofs.AnnotatorsIous.compute_ious_sorted f1 f2).
+Proof. exact FT.Proofs.AnnotatorsIous.gen__compute_ious_eq. Qed.
 End IousTie.
 
-Notation ious_of := FT.Proofs.CandGraphTie.compute_ious_sorted.
-Notation iou_entry := FT.Proofs.CandGraphTie.iou_entry.
-Notation unique_cols := FT.Proofs.CandGraphTie.unique_cols.
+Notation ious_of := FT.Proofs.AnnotatorsIous.compute_ious_sorted.
+Notation iou_entry := FT.Proofs.AnnotatorsIous.iou_entry.
+Notation unique_cols := FT.Proofs.AnnotatorsIous.unique_cols.
 Notation overlap_pairs := FT.Model.CandGraph.overlap_pairs.
 Notation pair_dec := FT.Model.CandGraph.pair_dec.
 Notation cg_count := FT.Model.CandGraph.count.
@@ -221,14 +192,14 @@ Qed.
 Lemma ious_find_spec f1 f2 u v : u <> 0 -> v <> 0 ->
   entry_value (ious_find (ious_of f1 f2) (u, v)) = frame_iou f1 f2 u v.
 Proof.
-  intros Hu Hv. unfold ious_find, FT.Proofs.CandGraphTie.compute_ious_sorted.
+  intros Hu Hv. unfold ious_find, FT.Proofs.AnnotatorsIous.compute_ious_sorted.
   rewrite (find_key_map (iou_entry f1 f2 (overlap_pairs f1 f2)) (u, v)) by reflexivity.
   unfold frame_iou. cbv zeta.
   destruct (in_dec pair_dec (u, v) (unique_cols (overlap_pairs f1 f2))) as [I|N].
-  - apply (proj1 (FT.Proofs.CandGraphTie.unique_cols_In _ _)) in I. pose proof I as I'. apply (overlap_In f1 f2 u v Hu Hv) in I'.
-    cbn [option_map entry_value]. unfold FT.Proofs.CandGraphTie.iou_entry. cbn [snd fst]. rewrite overlap_count by assumption.
+  - apply (proj1 (FT.Proofs.AnnotatorsIous.unique_cols_In _ _)) in I. pose proof I as I'. apply (overlap_In f1 f2 u v Hu Hv) in I'.
+    cbn [option_map entry_value]. unfold FT.Proofs.AnnotatorsIous.iou_entry. cbn [snd fst]. rewrite overlap_count by assumption.
     replace (Z.of_nat (pcount f1 f2 u v) =? 0) with false by (symmetry; apply Z.eqb_neq; lia). reflexivity.
-  - cbn [option_map entry_value]. rewrite FT.Proofs.CandGraphTie.unique_cols_In, (overlap_In f1 f2 u v Hu Hv) in N.
+  - cbn [option_map entry_value]. rewrite FT.Proofs.AnnotatorsIous.unique_cols_In, (overlap_In f1 f2 u v Hu Hv) in N.
     replace (Z.of_nat (pcount f1 f2 u v) =? 0) with true by (symmetry; apply Z.eqb_eq; lia). reflexivity.
 Qed.
 
@@ -311,13 +282,13 @@ Proof.
   intros Hu Hv L. rewrite <- (masked_frame_iou f1 f2 u v Hu Hv). rewrite <- (ious_find_spec _ _ u v Hu Hv). fold L.
   set (m1 := masked f1 u) in *. set (m2 := masked f2 v) in *. set (ov := overlap_pairs m1 m2).
   assert (Hall : forall x, In x (unique_cols ov) -> x = (u, v)).
-  { intros [a b] Hx. apply (proj1 (FT.Proofs.CandGraphTie.unique_cols_In _ _)) in Hx. pose proof (overlap_nonzero _ _ _ _ Hx) as [Ha Hb].
-    apply FT.Proofs.CandGraphTie.overlap_In_frames in Hx. destruct Hx as [Hx1 Hx2].
+  { intros [a b] Hx. apply (proj1 (FT.Proofs.AnnotatorsIous.unique_cols_In _ _)) in Hx. pose proof (overlap_nonzero _ _ _ _ Hx) as [Ha Hb].
+    apply FT.Proofs.AnnotatorsIous.overlap_In_frames in Hx. destruct Hx as [Hx1 Hx2].
     apply masked_values in Hx1, Hx2. destruct Hx1, Hx2; try congruence. }
-  destruct (NoDup_all_eq (u, v) _ (FT.Proofs.CandGraphTie.unique_cols_NoDup ov) Hall) as [E|E];
-    unfold L, FT.Proofs.CandGraphTie.compute_ious_sorted; fold m1 m2 ov; rewrite E; cbn [map].
+  destruct (NoDup_all_eq (u, v) _ (FT.Proofs.AnnotatorsIous.unique_cols_NoDup ov) Hall) as [E|E];
+    unfold L, FT.Proofs.AnnotatorsIous.compute_ious_sorted; fold m1 m2 ov; rewrite E; cbn [map].
   - split; [reflexivity|discriminate].
-  - split; [|reflexivity]. unfold ious_find. cbn [find fst iou_entry hd snd py_len length]. unfold FT.Proofs.CandGraphTie.iou_entry. cbn [fst snd].
+  - split; [|reflexivity]. unfold ious_find. cbn [find fst iou_entry hd snd py_len length]. unfold FT.Proofs.AnnotatorsIous.iou_entry. cbn [fst snd].
     rewrite pair_eqb_refl. reflexivity.
 Qed.
 
@@ -653,7 +624,7 @@ Theorem iou_update_spec : forall s edges f1 f2, NoDup edges ->
 Proof.
   intros s edges f1 f2 He Hex. unfold AG.gen_EdgeAnnotator__iou_update.
   rewrite IousTie.gen__compute_ious_eq. cbn [lift_exn bind]. set (L := ious_of f1 f2).
-  assert (HL : NoDup (map fst L)) by apply FT.Proofs.CandGraphTie.compute_ious_sorted_keys.
+  assert (HL : NoDup (map fst L)) by apply FT.Proofs.AnnotatorsIous.compute_ious_sorted_keys.
   match goal with |- context [py_for L edges s ?f] => change (py_for L edges s f) with (@py_for ((Z * Z) * (Z * Z)) (list (Z * Z)) L edges s iou_body1) end.
   rewrite (iou_loop1 L edges s HL He Hex). cbn [bind].
   set (rest := filter (fun e => negb (mem_pair e (map fst L))) edges).
